@@ -31,7 +31,9 @@ LEVEL_TEXT = ("Seeded exploration of histories in which validations are interlea
               "cardinality setters, save, load). After every op the default rule set is probed through "
               "the public API on a fixed document; validation ops must leave the whole universe "
               "snapshot-identical, report the same multiset when repeated, and keep custom rules "
-              "private. Every second run is re-validated in two other processes (long-lived helpers).")
+              "private; Document.validate() and Validation(doc) must agree, and the report text of a kept "
+              "Validation asked again must equal a fresh one. Every second run is re-validated in two "
+              "other processes (long-lived helpers).")
 LEVEL_NOTE = ("Validation.register_handler - the documented way to change the default rules - is not "
               "issued; issue collections are compared as multisets of (object, IssueID, rank, message).")
 DESIGN_REF = "DESIGN.md 4 (C19)"
